@@ -1,5 +1,5 @@
 """
-Bounded stand-in for C11 (never counted as proved): all call sequences up to length 3 (thorough: 4) over the event alphabet
+Bounded stand-in for C11 (never counted as proved): sampled call sequences of length 3 (thorough: ALL sequences of length 3 plus sampled ones of length 4) over the event alphabet
 (expect in {absent, valid, another valid, invalid}) x (input in {right, wrong, malformed}) for each item-grader class with and without configured answers and
 with debug on/off; every call is compared with a small reference state machine realised by FRESH graders (a grader without configured answers uses the expect of
 the current call, or the last successfully supplied one); deep snapshots of the author's configuration objects, scopes and process-wide settings before/after.
@@ -10,7 +10,7 @@ import random
 import numpy as np
 from bounded._common import Tally, rtcheck, load_contracts
 
-ASSUMPTIONS = ["bounded tier: sequences of length <= 3 (quick) / 4 (thorough); 4 grader classes x 2 (answers configured or not) x debug on/off"]
+ASSUMPTIONS = ["bounded tier: 120 sampled sequences of length 3 per configuration (quick) / all sequences of length 3 plus 1500 sampled of length 4 (thorough); 4 grader classes x 2 (answers configured or not) x debug on/off"]
 
 
 def run(tier, seed):
@@ -42,7 +42,7 @@ def run(tier, seed):
         'SingleListGrader': dict(mk=lambda **kw: lg.SingleListGrader(subgrader=sg.StringGrader(), **kw), answers=['a', 'b'], valid=['a, b', 'c, d'], invalid='a,,b',
                                  inputs={'a, b': 'b, a', 'c, d': 'c, d', 'x': 'q, r', 'bad': 'a, b'}),
     }
-    L = 4 if tier == 'thorough' else 3
+    L = 3
 
     def call(g, expect, inp):
         try:
@@ -54,9 +54,11 @@ def run(tier, seed):
     for cname, c in classes.items():
         for configured, debug in itertools.product((False, True), (False, True)):
             events = [(e, i) for e in ('absent', 'valid0', 'valid1', 'invalid') for i in ('right', 'wrong', 'malformed')]
-            seqs = list(itertools.product(range(len(events)), repeat=L))
             if tier == 'quick':
-                seqs = rnd.sample(seqs, 120)
+                seqs = rnd.sample(list(itertools.product(range(len(events)), repeat=L)), 120)
+            else:
+                # thorough: every sequence of length 3 (12^3 per configuration) plus 1500 sampled sequences of length 4
+                seqs = list(itertools.product(range(len(events)), repeat=3)) + rnd.sample(list(itertools.product(range(len(events)), repeat=4)), 1500)
             for seq in seqs:
                 kw = {'debug': debug}
                 if configured:
@@ -171,7 +173,7 @@ def run(tier, seed):
         t.ok('process-wide settings', 'snapshot', sample={'settings compared': 8})
     return t.report(rule="call sequences over a 12-event alphabet per grader class / answers configured or not / debug flag, each call compared with a freshly constructed grader given the expect value the "
                          "reference state machine says is in force; configuration snapshots and process-wide settings compared before/after; distinct = distinct sequences", bounds={'sequence length': L},
-                    exhaustive=(tier == 'thorough'))
+                    exhaustive=False)
 
 
 def replay(case):
